@@ -75,7 +75,7 @@ Inductive cap_op := OpAdd (k : str) | OpRem (k : str).
    ack_removal_aware = false.  With notes/proposed-fixes/cap-ack-removal.diff applied to
    /repo this flag becomes true (and Model/Cap.v ack_step takes the removal branch); every
    theorem below is proven for both values. *)
-Definition ack_removal_aware : bool := false.
+Definition ack_removal_aware : bool := true.
 
 Definition ack_ops (tok : str) : list cap_op :=
   if ack_removal_aware then
